@@ -82,7 +82,7 @@ func encodeFunc(P *Program, CS *ContractSet, fn *ssa.Function, ct *Contract) *Fu
 			return res
 		}
 		dir := scratchDir("houdini-" + sanitize(res.Name))
-		dischargeAll(cands, dir, 4, false, 16)
+		dischargeAllOpt(cands, dir, 6, false, 8, false)
 		changed := false
 		for _, o := range cands {
 			if !o.Discharged() && !disabled[o.Detail] {
